@@ -35,6 +35,17 @@ def check_nested(idx: Index, rep: Report) -> None:
     lookups = [c for c in calls_in(w) if call_attr(c) == "lookup_symbol" or unparse(c.func) == f.node.args.args[2].arg]
     if not lookups:
         raise AnalysisError(f"{f.fq}: per-step lookup not found")
+    # the root component is looked up in the table the reference is resolved from: its visibility is irrelevant (a private
+    # symbol is visible inside its own table); only symbols reached *through nesting* are refused
+    priv_nodes = [n_ for n_ in ast.walk(w) if isinstance(n_, ast.Attribute) and unparse(n_) == "Visibility.PRIVATE"]
+    if "root_reference" in unparse(w.iter) and priv_nodes:
+        # a test that exempts the first component (position, identity with the root, non-empty result list) is not read here
+        exempt = [unparse(t_) for pn_ in priv_nodes for t_, _p in guard_facts(f.node, pn_) if re.search(r"root_reference|\b(i|idx|index|pos|position|depth|level|n)\b|symbols|first", unparse(t_)) and "Visibility" not in unparse(t_)]
+        if exempt:
+            raise AnalysisError(f"{f.fq}: the root component is resolved inside the loop and the visibility test is guarded by {exempt[:2]}: whether the root is exempt was not decided")
+        r.fail(f.fq + ":root", Finding("C29.R1", f.fq, "private-root-refused", f"the loop `for {unparse(w.target)} in {unparse(w.iter)[:60]}` resolves the root component together with the nested ones and applies the private-symbol refusal to it: `@helper` naming a private symbol of the table itself resolves to nothing through a SymbolRefAttr, while the plain string form finds it", f"{UT}:{w.lineno}"))
+    else:
+        r.ok(f.fq + ":root", f"{f.loc} the visibility test applies to nested components only")
     cur = unparse(lookups[0].args[0])
     cfg = CFG(f.node)
     from ..dataflow import resolved_text
